@@ -1,3 +1,87 @@
 package c08
 
-func registerMatchers() {}
+import (
+	"verif/internal/refarr"
+	"verif/internal/run"
+)
+
+// Known findings are matched with deviation models: refarr can switch on a
+// model of each recorded defect (refarr.Dev*). A failure is an instance of
+// finding X iff the model WITH X's deviation reproduces everything otto
+// produced up to and including the first event that disagrees with pure ES5.1,
+// and the same model WITHOUT X does not. Nothing is matched by input region or
+// by site alone.
+var devOf = map[string]int{
+	"c08.resultHoles":         refarr.DevResultHoles,
+	"c08.reduceRightIndex":    refarr.DevReduceRightIndex,
+	"c08.reduceNoElement":     refarr.DevReduceNoElement,
+	"c08.lengthOneConversion": refarr.DevLengthOneConversion,
+	"c08.spliceNoArgs":        refarr.DevSpliceNoArgs,
+	"c08.looseIndex":          refarr.DevLooseIndex,
+	"c08.undefinedThis":       refarr.DevUndefinedThis,
+	"c08.reverseDeleteFirst":  refarr.DevReverseDeleteFirst,
+	"c08.returnsThisValue":    refarr.DevReturnsThisValue,
+	"c08.lastIndexOf":         refarr.DevLastIndexOf,
+	"c08.callableFirst":       refarr.DevCallableFirst,
+	"c08.joinSepFirst":        refarr.DevJoinSepFirst,
+	"c08.lengthSameValue":     refarr.DevLengthSameValue,
+}
+
+func allDevs() int {
+	all := 0
+	for _, d := range devOf {
+		all |= d
+	}
+	return all
+}
+
+// agrees reports whether the model under deviation set dev reproduces otto's
+// events [0, upTo] (under the erratum variant the failure was reported with).
+func agrees(fi *failIn, dev int) bool {
+	m, st := runModel(&fi.Input, fi.variant, dev)
+	if st != "" {
+		return false
+	}
+	n := fi.upTo + 1
+	if m.sortAt >= 0 && n > m.sortAt {
+		return false // sort observations are relational; no deviation model
+	}
+	return len(m.events) >= n && len(fi.ottoEvents) >= n && firstDiff(m.events[:n], fi.ottoEvents[:n]) < 0
+}
+
+func devMatcher(flag int) run.Matcher {
+	return func(f *run.Failure) bool {
+		fi, ok := f.In.(*failIn)
+		if !ok || f.Kind != "mismatch" || fi.ottoEvents == nil {
+			return false
+		}
+		for _, set := range []int{flag, allDevs()} {
+			if agrees(fi, set) && !agrees(fi, set&^flag) {
+				return true
+			}
+		}
+		return false
+	}
+}
+
+// infeasibleDevs are deviation models of resource exhaustion: they never
+// explain an output, they only mark cases that must not be run.
+const infeasibleDevs = refarr.DevMapEagerAlloc
+
+func registerMatchers() {
+	// A worker killed by the runtime (out of memory) while executing map over a
+	// huge length: only reachable by replaying such an input explicitly, the
+	// generator skips them (see checkOne).
+	run.RegisterMatcher("c08.mapEagerAlloc", func(f *run.Failure) bool {
+		fi, ok := f.In.(*failIn)
+		if !ok || (f.Kind != "worker-died" && f.Kind != "panic") {
+			return false
+		}
+		_, st := runModel(&fi.Input, 0, refarr.DevMapEagerAlloc)
+		_, st0 := runModel(&fi.Input, 0, 0)
+		return st == "budget" && st0 == ""
+	})
+	for name, flag := range devOf {
+		run.RegisterMatcher(name, devMatcher(flag))
+	}
+}
